@@ -56,6 +56,7 @@ type Outcome struct {
 	Steps      int
 	LiveAtEnd  int // non-daemon threads still alive when the main thread finished
 	Divergence string
+	Invariant  string // first invariant violation reported by the harness hook (see Invariant)
 }
 
 // World is one execution.
@@ -90,6 +91,7 @@ type World struct {
 	traceOps bool
 	userData any
 	mapIDs   map[any]int
+	invFn    func() string
 }
 
 var (
@@ -289,6 +291,12 @@ func (w *World) schedule() {
 			w.stopNow()
 		}
 		w.fireDue()
+		if w.invFn != nil && w.out.Invariant == "" {
+			if msg := w.invFn(); msg != "" {
+				w.out.Invariant = msg
+				w.stopNow()
+			}
+		}
 		var en []*Thread
 		if !me.done && me.enabled(w) {
 			en = append(en, me)
@@ -514,4 +522,45 @@ func BlockedUntil() time.Duration {
 		return time.Duration(w.cur.blockedAt)
 	}
 	return 0
+}
+
+// Invariant installs a predicate evaluated at every scheduling step (between two visible operations, i.e. in every
+// reachable state of the explored system); a non-empty return value ends the execution as an invariant violation.
+func Invariant(f func() string) {
+	if w := cur; w != nil {
+		w.invFn = f
+	}
+}
+
+// LiveThreads returns the number of threads that have been started and have not finished.
+func LiveThreads() int {
+	n := 0
+	if w := cur; w != nil {
+		for _, t := range w.threads {
+			if !t.done {
+				n++
+			}
+		}
+	}
+	return n
+}
+
+// LiveNamed counts live threads whose name has the given prefix.
+func LiveNamed(prefix string) int {
+	n := 0
+	if w := cur; w != nil {
+		for _, t := range w.threads {
+			if !t.done && strings.HasPrefix(t.Name, prefix) {
+				n++
+			}
+		}
+	}
+	return n
+}
+
+// SetName names the calling thread (threads started by rewritten go statements are anonymous).
+func SetName(name string) {
+	if w := cur; w != nil && w.cur != nil {
+		w.cur.Name = name
+	}
 }
